@@ -1,12 +1,12 @@
 SPECIFICATION Spec
 CONSTANTS
-  Record = TRUE
-  Works <- WorksX2
-  FaultChoices <- FaultsX
-CONSTRAINT ExportC
+  Record = FALSE
+  Works <- WorksC
+  FaultChoices <- FaultsOneT1
 INVARIANT TypeOK
 INVARIANT HolderOnly
 INVARIANT Contiguous
+INVARIANT BlockShape
 INVARIANT OnceInOrder
 INVARIANT Released
 INVARIANT FaultsSurface
